@@ -99,7 +99,7 @@ def spec_level(ctx, tier):
         gaps = [g for g in c09.GAPS if g != "" and "pragma" not in g]
         a, b = (c09.VOCAB[:45], c09.VOCAB[45:95]) if tier == "quick" else (c09.VOCAB, c09.VOCAB)
         path, sub = mc_module(wd, "CLex", dict(Shape=[set(a), set(gaps), set(b)], Types=c09.TYPES))
-        res = tlc(path, sub + "INIT Init\nNEXT Next\nINVARIANT LayoutInvariant\nCHECK_DEADLOCK FALSE\n", wd=wd, timeout=3000)
+        res = tlc(path, sub + "INIT Init\nNEXT Next\nINVARIANT LayoutInvariant\nCHECK_DEADLOCK FALSE\n", wd=wd, timeout=3000, xss="256m")
         tlc_ok(res, "CLex LayoutInvariant")
         if res.violated:
             raise common.MachineryError("LayoutInvariant violated on the specification itself")
